@@ -119,11 +119,19 @@ def run(ctx):
 
         def is_idx(v):
             v = noref(v)
-            return v.kind == 'call' and b.call_at(v.key) is not None and 'From' in b.call_at(v.key).callee
+            return v.kind == 'call' and b.call_at(v.key) is not None and \
+                ('From' in b.call_at(v.key).callee or 'Into' in b.call_at(v.key).callee)
         gt = edges_where(b, is_idx, is_len, 'gt')
         eq = edges_where(b, is_idx, is_len, 'eq')
         below = edges_where(b, is_idx, is_len, 'lt') + edges_where(b, is_idx, is_len, 'ne')
         le = edges_where(b, is_idx, is_len, 'le')
+        # a slot found by position is a position below len: the `Some` edge of `values.get_mut(index)`; its `None`
+        # edge is index >= len, from which `index == len` carves out the append
+        for c in b.calls_to('slice::get_mut', 'slice::get', 'Vec::get_mut', 'Vec::get'):
+            if len(c.args) == 2 and is_idx(b.val(c.args[1])) and \
+                    noref(b.trace(b.val(c.args[0]), ('DerefMut::deref_mut', 'Deref::deref', 'Vec::as_mut_slice'))
+                          ).fields()[-1:] == ('.values',):
+                below = below + b.branch(c, 'Some')
         # "index > len" may be established by one test or be what is left after `<` and `==` were ruled out: with
         # every edge that establishes <, == or <= removed, no return (and no push / swap) is reachable
         r_gt = b.reach([0], cut_edges=below + eq + le)
